@@ -1,4 +1,4 @@
-// C02 — message stream integrity under arbitrary segmentation            vp-link: core io
+// C02 — message stream integrity under arbitrary segmentation            vp-link: core io cxx
 //
 // G: history over {push(chunk), end-message, flush(k), deliver(k), receive, peek, grow-sender, grow-receiver}
 //    on an encode_queue / decode_queue pair driven the way mptio/stream drives them (stream_push / stream_flush /
@@ -23,6 +23,7 @@
 #include <errno.h>
 #include <fcntl.h>
 #include <poll.h>
+#include <sys/ioctl.h>
 #include <sys/socket.h>
 #include <unistd.h>
 
@@ -150,6 +151,7 @@ struct H {
   size_t n_missing_buffer = 0;
   bool drained_mid = false;
   bool retry_full = true;
+  bool cxx = false;       // drive the queues through the member functions of mpt++/queue.cpp (encode_queue::push/trim/done, decode_queue::advance/...)
   bool lim_mode = false;  // deliveries may use mpt_queue_load with an explicit read limit
   size_t piped = 0;       // wire bytes behind `delivered` that are waiting on the descriptor
   size_t open_queued = 0;  // command framing: bytes of the open message that are still in the sender queue
@@ -239,8 +241,8 @@ struct H {
         else if (n - total > low_room) c.label(n ? "command:push:lower-part-overflowing" : "command:push:lower-part");  // first call fills the lower part, second call needed
         else c.label("command:push:lower-part");
       }
-      ssize_t r = mpt_queue_push(sq, n - total, n ? p + total : 0);
-      c.logf("  mpt_queue_push(%zu%s) = %zd", n - total, n ? "" : ", terminate", r);
+      ssize_t r = cxx ? sq->push(n - total, n ? p + total : 0) : mpt_queue_push(sq, n - total, n ? p + total : 0);
+      c.logf("  %s(%zu%s) = %zd", cxx ? "encode_queue::push" : "mpt_queue_push", n - total, n ? "" : ", terminate", r);
       logq("   ");
       inv_sender("push");
       if (r >= 0) {
@@ -320,10 +322,23 @@ struct H {
         if (wrapped(sd())) c.label("command:drain-mid-message-wrapped");
       }
     }
-    int r = mpt_queue_crop(sd(), 0, k);
-    sq->_state.done -= k;
-    c.logf("flush %zu of %zu finished bytes [%s] (crop = %d), wire now %zu bytes", k, sq->_state.done + k, why, r, wire.size());
-    VP_CHECK(c, r >= 0, "crop-refused", "mpt_queue_crop(sender, 0, %zu) = %d", k, r);
+    int r;
+    if (cxx) {  // consumer of the C++ class: read done() bytes through the data access, release them with trim()
+      size_t before = sq->done(), len_before = sq->len;
+      bool ok = sq->trim(k);
+      r = ok ? 0 : -1;
+      c.logf("flush %zu of %zu finished bytes [%s] (encode_queue::trim = %d), wire now %zu bytes", k, before, why, (int)ok, wire.size());
+      VP_CHECK(c, ok, "crop-refused", "encode_queue::trim(%zu) refused with %zu finished bytes", k, before);
+      VP_CHECK(c, sq->done() == before - k && sq->len == len_before - k, "trim-accounting", "encode_queue::trim(%zu): done() %zu -> %zu, queue length %zu -> %zu", k, before, sq->done(), len_before,
+               sq->len);
+      c.label("cxx:trim");
+      if (k > n0) c.label("cxx:trim-two-segments");
+    } else {
+      r = mpt_queue_crop(sd(), 0, k);
+      sq->_state.done -= k;
+      c.logf("flush %zu of %zu finished bytes [%s] (crop = %d), wire now %zu bytes", k, sq->_state.done + k, why, r, wire.size());
+      VP_CHECK(c, r >= 0, "crop-refused", "mpt_queue_crop(sender, 0, %zu) = %d", k, r);
+    }
     logq("   ");
     inv_sender("flush");
     check_wire();
@@ -507,7 +522,12 @@ struct H {
              delivered_frames, sent.size());
     message m;
     struct iovec vec;
-    int g = mpt_message_get(rd(), st.data.pos, st.data.msg, &m, &vec);
+    int g;
+    if (cxx) {
+      VP_CHECK(c, rq->pending_message(), "recv-state", "decode_queue::pending_message() is false with message length %zd", st.data.msg);
+      bool ok = rq->current_message(m, &vec);
+      g = ok ? (int)m.clen : -1;
+    } else g = mpt_message_get(rd(), st.data.pos, st.data.msg, &m, &vec);
     VP_CHECK(c, g >= 0, "message-get", "mpt_message_get(pos %zu, len %zd) = %d on queue of %zu bytes", st.data.pos, st.data.msg, g, rq->len);
     if (g > 0) c.label("receiver:message-two-segments");
     std::vector<uint8_t> got(st.data.msg + 1);
@@ -528,8 +548,16 @@ struct H {
   }
   int checked_recv(const char *which) {
     size_t len_before = rq->len;
-    int r = mpt_queue_recv(rq);
-    c.logf("  mpt_queue_recv [%s] = %d", which, r);
+    int r;
+    if (cxx) {  // advance() = mpt_queue_recv + mpt_queue_shift, the result code is reduced to a bool
+      bool ok = rq->advance();
+      r = ok ? (rq->pending_message() ? 1 : 0) : (len_before ? MPT_ERROR(MissingBuffer) : MPT_ERROR(MissingData));  // a refusal with data queued: retry after granting space
+      c.logf("  decode_queue::advance [%s] = %d, pending_message %d", which, (int)ok, (int)rq->pending_message());
+      c.label("cxx:advance");
+    } else {
+      r = mpt_queue_recv(rq);
+      c.logf("  mpt_queue_recv [%s] = %d", which, r);
+    }
     logq("   ");
     inv_receiver("recv");
     if (r == MPT_ERROR(MissingBuffer)) {
@@ -647,6 +675,7 @@ struct H {
 
   void run() {
     sgrow_style = (int)c.weighted({2, 2, 4});
+    if (cxx) { sgrow_style = 2; c.label("cxx:flavour"); }  // fixed-size ring: the consumer takes finished bytes, growth only when nothing is finished
     size_t cs = draw_capacity(c), cr = draw_capacity(c);
     preroll(c, sd(), cs, cs ? c.range(0, cs - 1) : 0, "sender");
     preroll(c, rd(), cr, cr ? c.range(0, cr - 1) : 0, "receiver");
@@ -767,7 +796,9 @@ static int on_message(void *arg, const message *msg) {
   k->got.push_back(b);
   return 0;
 }
-static void run_streams(Ctx &c, int fr) {
+// small: the sender's descriptor is non-blocking with the smallest send buffer the kernel grants and the harness reads its end in
+// drawn portions only, so mpt_stream_flush sees short and refused writes
+static void run_streams(Ctx &c, int fr, bool small) {
   int a[2] = {-1, -1}, b[2] = {-1, -1};
   CObj<stream> tx, rx;
   tx->_rd._state.data.msg = -1;
@@ -777,6 +808,7 @@ static void run_streams(Ctx &c, int fr) {
     ~Guard() { mpt_stream_close(tx); mpt_stream_close(rx); for (int i = 0; i < 2; i++) { if (a[i] >= 0) close(a[i]); if (b[i] >= 0) close(b[i]); } }
   } guard{a, b, tx, rx};
   VP_CHECK(c, socketpair(AF_UNIX, SOCK_STREAM | SOCK_NONBLOCK, 0, a) == 0 && socketpair(AF_UNIX, SOCK_STREAM | SOCK_NONBLOCK, 0, b) == 0, "harness", "socketpair: %s", strerror(errno));
+  if (small) { int v = 1; setsockopt(a[0], SOL_SOCKET, SO_SNDBUF, &v, sizeof v); }
   // the streams own a[0] and b[1]
   VP_CHECK(c, _mpt_stream_setfile(&tx->_info, -1, a[0]) >= 0, "harness", "setfile tx");
   a[0] = -1;
@@ -809,10 +841,10 @@ static void run_streams(Ctx &c, int fr) {
     }
   };
   size_t wire_seen = 0, wire_frame_start = 0, wire_frames = 0;
-  auto pump_in = [&]() {  // sender socket -> harness; every complete frame must be the encoding of the sent message
+  auto pump_in = [&](size_t limit = (size_t)-1) {  // sender socket -> harness; every complete frame must be the encoding of the sent message
     uint8_t buf[4096];
     ssize_t n;
-    while ((n = read(a[1], buf, sizeof buf)) > 0) mid.insert(mid.end(), buf, buf + n);
+    while (limit && (n = read(a[1], buf, limit < sizeof buf ? limit : sizeof buf)) > 0) { mid.insert(mid.end(), buf, buf + n); limit -= n; }
     for (; wire_seen < mid.size(); wire_seen++) {
       if (mid[wire_seen]) continue;
       VP_CHECK(c, wire_frames < sent.size(), "wire-mismatch", "%s: streams: frame #%zu on the wire but only %zu messages were finished", kName[fr], wire_frames, sent.size());
@@ -825,11 +857,29 @@ static void run_streams(Ctx &c, int fr) {
       wire_frame_start = wire_seen + 1;
     }
   };
-  auto tx_flush = [&]() {
+  auto accepted = [&]() -> size_t {  // bytes the sender's descriptor has taken so far: read by the harness + waiting in the kernel
+    int q = 0;
+    VP_CHECK(c, ioctl(a[1], FIONREAD, &q) == 0, "harness", "FIONREAD: %s", strerror(errno));
+    return mid.size() + (size_t)q;
+  };
+  auto tx_flush = [&](bool pump) {
+    size_t a0 = accepted(), d0 = tx->_wd._state.done, l0 = tx->_wd.len;
+    errno = 0;
     int r = mpt_stream_flush(tx);
-    c.logf("mpt_stream_flush = %d", r);
-    VP_CHECK(c, r >= 0, "flush-error", "mpt_stream_flush = %d", r);
-    pump_in();
+    int err = errno;
+    size_t a1 = accepted(), d1 = tx->_wd._state.done, l1 = tx->_wd.len;
+    c.logf("mpt_stream_flush = %d: descriptor accepted %zu bytes (total %zu), finished bytes queued %zu -> %zu, queue length %zu -> %zu", r, a1 - a0, a1, d0, d1, l0, l1);
+    // no byte dropped or duplicated on a complete, short or refused write
+    VP_CHECK(c, d1 <= d0 && d0 - d1 == a1 - a0 && l0 - l1 == d0 - d1, "flush-conservation",
+             "%s: mpt_stream_flush = %d: the descriptor accepted %zu bytes, finished bytes queued went from %zu to %zu, queue length from %zu to %zu", kName[fr], r, a1 - a0, d0, d1, l0, l1);
+    if (r < 0) {
+      VP_CHECK(c, small && (err == EAGAIN || err == EWOULDBLOCK), "flush-error", "mpt_stream_flush = %d (errno %d)", r, err);
+      c.label("flush:refused-eagain");
+    } else {
+      VP_CHECK(c, r == (l1 ? 1 : 0), "flush-error", "mpt_stream_flush = %d with %zu bytes left in the queue", r, l1);
+      if (d1 && a1 > a0) c.label("flush:short-write");
+    }
+    if (pump) pump_in();
   };
   auto forward = [&](size_t k) {  // harness -> receiver socket, then poll + dispatch like an input loop
     ssize_t w = write(b[0], mid.data() + mid_off, k);
@@ -853,7 +903,7 @@ static void run_streams(Ctx &c, int fr) {
     }
   };
   auto start = [&]() {
-    todo = msggen::message(c, c.choose<size_t>({24, 120, 300, 700}), fr == FCommand);
+    todo = msggen::message(c, small ? c.choose<size_t>({120, 700, 700, 700}) : c.choose<size_t>({24, 120, 300, 700}), fr == FCommand);
     if (is_zpe(fr) && zpe_message_fix(todo, false) && c.exclude(kZpeStall)) zpe_message_fix(todo, true);
     todo_off = 0; open = true;
     c.logf("message #%zu, %zu bytes", sent.size(), todo.size());
@@ -873,7 +923,19 @@ static void run_streams(Ctx &c, int fr) {
     open = false;
   };
   while (c.more()) {
-    switch (c.weighted({5, 2, 3, 5, 3})) {
+    size_t op = small ? c.weighted({6, 3, 4, 3, 1, 1}) : c.weighted({5, 2, 3, 5, 3});
+    switch (op) {
+      case 5: {  // small only: the far end of the sender's socket takes a portion
+        size_t k;
+        switch (c.weighted({2, 2, 1})) {
+          case 0: k = c.range(1, 64); break;
+          case 1: k = c.range(1, 2048); break;
+          default: k = (size_t)-1;
+        }
+        size_t before = mid.size();
+        pump_in(k);
+        c.logf("far end reads %zu bytes", mid.size() - before);
+        break; }
       case 0: {
         if (!open) start();
         size_t left = todo.size() - todo_off;
@@ -882,7 +944,7 @@ static void run_streams(Ctx &c, int fr) {
         spush(n);
         break; }
       case 1: end(); break;
-      case 2: tx_flush(); break;
+      case 2: tx_flush(!small); break;
       case 3: {
         size_t pend = mid.size() - mid_off;
         if (!pend) break;
@@ -902,7 +964,7 @@ static void run_streams(Ctx &c, int fr) {
   c.logf("-- drain");
   if (open) end();
   for (size_t guardn = 0; guardn < 100000; guardn++) {
-    tx_flush();
+    tx_flush(true);
     size_t pend = mid.size() - mid_off;
     if (!pend && !tx->_wd.len) break;
     if (pend) forward(pend < 512 ? pend : 512);
@@ -928,6 +990,7 @@ static void run_streams(Ctx &c, int fr) {
   VP_CHECK(c, col.got.size() == sent.size(), "extra-message", "%s: streams: %zu sent, %zu received", kName[fr], sent.size(), col.got.size());
   c.label(kName[fr]);
   c.label("scenario:streams");
+  if (small) c.label("scenario:streams-small-send-buffer");
   c.count("messages", sent.size());
   if (sent.size() >= 2) c.label("messages>=2");
   if (cut_inside) c.label("cut-inside-frame");
@@ -941,8 +1004,9 @@ static void run(Ctx &c) {
   // appended selector ranges of the command framing (none of the committed inputs starts with one of these bytes)
   if (sel >= 0xc0 && sel < 0xe0) fr = FCommand;
   if (sel >= 0xf8) fr = FCommand;
-  if (sel >= 0xe0) { run_streams(c, fr); return; }
+  if (sel >= 0xe0) { run_streams(c, fr, (sel & 0x04) != 0); return; }  // bit 2 appended: small send buffer (committed stream input: e2)
   H h(c, fr);
+  h.cxx = (sel & 0x08) != 0;       // appended: C++ wrapper flavour (none of the committed inputs has this selector bit)
   h.lim_mode = (sel & 0x10) != 0;  // appended: half of the queue-scenario selectors (none of the committed inputs) draw read limits for mpt_queue_load
   h.run();
 }
